@@ -1000,6 +1000,48 @@ Proof.
       constructor; [|constructor]. apply (ended_w_good F w Hk Hl Hsafe).
 Qed.
 
+(* the statement the design calls abor_in_body: in the transfer body, outside a hole: 426 then 226 *)
+Theorem abor_in_body : forall F st w,
+  sound14 F = true -> state_ok F st = true -> alive (ss st) = true -> ws st = [w] ->
+  in_body (parked_stage F w) = true -> w_leak w = false -> hole F w = false ->
+  snd (abor_run F st) = [426%Z; 226%Z]
+  /\ fst (abor_run F st) = {| ss := ss st; ws := [] |}
+  /\ (exists w', ws (unwind F (fst (step F st Abor))) = [w'] /\ good_w F w' /\ same_data w w').
+Proof.
+  intros F st w Hs Hk Ha Hw Hb Hl Hh. destruct (sound14_inv F Hs) as (Hwk & Hcc & Hu).
+  unfold state_ok in Hk. rewrite Hw in Hk. simpl in Hk. rewrite andb_true_r in Hk.
+  pose proof (workers_ok_wf F w Hwk) as Hwf. destruct (wfacts_ok_inv _ Hwf) as (_ & _ & Hhw & _).
+  assert (Ht : terminal (w_stage w) = false).
+  { destruct (terminal (w_stage w)) eqn:T; [|reflexivity]. exfalso.
+    unfold parked_stage in Hb. destruct (skip_fuel_S (wfof F w)) as [n En]. rewrite En in Hb.
+    simpl in Hb. rewrite T in Hb. simpl in Hb. destruct (w_stage w); simpl in *; discriminate. }
+  destruct (abor_run_single F st w Hu Ha Hw Ht) as [Erun Ews]. rewrite Ews, Erun. clear Erun Ews.
+  destruct (after_spec (c_cancel_codes F) (wfof F w) ECancel w Hk Hl Hh) as (T & L & S & B).
+  unfold parkedC in B. unfold parked_stage in Hb. destruct (B Hb) as [Bs Bc].
+  rewrite <- ended_w_after in T, L, S, Bs. rewrite Bc. cbn [reap]. rewrite Bs.
+  unfold settle_stage, settle_codes. rewrite Hhw, Hcc. cbn. rewrite L.
+  rewrite set_leaked_false. repeat split; auto.
+  exists (ended_w F w). split; [reflexivity|]. split; [apply (ended_w_good F w Hk Hl Hh) | assumption].
+Qed.
+
+(* what has been moved only ever grows, and together with what remains it is the payload *)
+Lemma wstep_payload : forall cc wf d w,
+  w_moved (fst (fst (wstepC cc wf d w))) ++ w_rest (fst (fst (wstepC cc wf d w))) = w_moved w ++ w_rest w
+  /\ exists t, w_moved (fst (fst (wstepC cc wf d w))) = w_moved w ++ t.
+Proof.
+  intros cc wf d w.
+  assert (G : forall w', same_data w w' ->
+            w_moved w' ++ w_rest w' = w_moved w ++ w_rest w /\ exists t, w_moved w' = w_moved w ++ t).
+  { intros w' (_ & M & R). rewrite M, R. split; [reflexivity | exists []; rewrite app_nil_r; reflexivity]. }
+  unfold wstepC. destruct (w_stage w) as [ | [|] | | i | | n | [|j] | | | | e0 | ];
+    try (apply G; destruct w; unfold same_data; simpl; auto; fail);
+    try (destruct d; apply G; destruct w; unfold same_data; simpl; auto; fail).
+  - destruct (w_rest w) as [|b r] eqn:Er.
+    + pose proof (start_exit_same_data cc wf w) as Sd. destruct (start_exit cc wf w); simpl in *. apply G; assumption.
+    + simpl. split; [rewrite <- app_assoc; reflexivity | exists [b]; reflexivity].
+  - pose proof (finish_same_data cc wf w) as Sd. destruct (finish cc wf w); simpl in *. apply G; assumption.
+Qed.
+
 Ltac dmatch :=
   match goal with
   | |- context [match ?x with _ => _ end] => is_var x; destruct x
